@@ -10,7 +10,7 @@ gives a lock another notification or a pipe another congestion notification.  Li
 * `condition_shape_forever` - C08 "derived conditions follow boolean algebra on the current values": `a & b` is for ever the
   conjunction of exactly the operands it was built from (in that order), `~flag` stays the inverse of that flag,
   `task.done` stays about that task, a comparison keeps its operands and a time condition its date;
-* `connective_children_forever`, `inverse_forever` - the two readings used most;
+* `connective_children_forever`, `inverse_forever`, `inverse_pair_forever` - the readings used most;
 * `tracked_listeners_append_only`, `resource_listeners_append_only` - C08 "never missed" / C02 notification order: a
   comparison that listens to a value is told about every later change, and the order of notification is the order of
   subscription, for ever;
@@ -117,6 +117,13 @@ theorem inverse_forever (n : Nat) (w : World Rat) (c : CondId) (hc : c < w.conds
     generalize ((w.runFuel n).1.cond c).kind = k at h ⊢; cases k <;> simp_all [CondKind.shape]
   · intro v hk; rw [hk] at h
     generalize ((w.runFuel n).1.cond c).kind = k at h ⊢; cases k <;> simp_all [CondKind.shape]
+
+/-- **double inversion, structurally**: a flag and its inverse that point at each other do so for ever - `~~flag` is the flag
+itself after any number of steps of any program (C08 "double inversion") -/
+theorem inverse_pair_forever (n : Nat) (w : World Rat) (c i : CondId) (hc : c < w.conds.size) (hi : i < w.conds.size) (v : Bool)
+    (h1 : (w.cond c).kind = .flag v i) (h2 : (w.cond i).kind = .invFlag c) :
+    (∃ v', ((w.runFuel n).1.cond c).kind = .flag v' i) ∧ ((w.runFuel n).1.cond i).kind = .invFlag c :=
+  ⟨(inverse_forever n w c hc i).2 v h1, (inverse_forever n w i hi c).1 h2⟩
 
 /-- **the listeners of a tracked value are never dropped or reordered** -/
 theorem tracked_listeners_append_only (n : Nat) (w : World Rat) (x : Name) (hx : x < w.tracked.size) :
